@@ -25,6 +25,8 @@ def _fixed_unitary(d, salt):
 
 CUSTOM_NUMERIC = {"custom1": _fixed_unitary(2, 0.0), "custom2": _fixed_unitary(4, 1.0), "custom3": _fixed_unitary(8, 2.0),
                   # complex-SYMMETRIC but not Hermitian (transpose == itself, adjoint != itself): user-defined S-like and ISWAP-like gates
+                  # user-defined matrices that are NOT diagonalisable (a definition accepts any matrix; modifiers are defined by matrix functions, which exist for these too)
+                  "customnil": np.array([[0, 1], [0, 0]]), "customjordan": np.array([[1, 1], [0, 1]]), "customjordanc": np.array([[1j, 1], [0, 1j]]),
                   "customsym1": np.array([[1, 0], [0, 1j]]), "customsym2": np.array([[1, 0, 0, 0], [0, 0, 1j, 0], [0, 1j, 0, 0], [0, 0, 0, np.exp(0.3j)]])}
 
 
